@@ -1279,8 +1279,23 @@ class C06(ParserProp):
                     ch[i] = t + b[j + 1:]
                     d = gen.close_message(rng, ch)
                     base.append(Case("parse " + hx(d), "declared-length", dict(d=d)))
+        # every single-byte TLF at every field position (zero-length integers, wrong types, reserved bits, ...)
+        for _ in range(3 if tier == "quick" else 30):
+            m = gen.gen_message(rng, "list", nentries=rng.randint(1, 2))
+            for i in range(len(m["chunks"])):
+                for t in range(256):
+                    ch = list(m["chunks"])
+                    b = ch[i]
+                    j = 0
+                    while j < len(b) and b[j] & 0x80:
+                        j += 1
+                    ch[i] = bytes([t]) + b[j + 1:]
+                    d = gen.close_message(rng, ch)
+                    base.append(Case("parse " + hx(d), "one-byte-tlf", dict(d=d)))
         for c in base:
             out.append(c)
+            if c.tag == "one-byte-tlf" and rng.random() < 0.9:
+                continue
             out.append(Case("palloc " + c.line.split(" ", 1)[1], "alloc:" + c.tag.split(":")[0], dict(d=c.meta["d"], alloc=True)))
         out.append(Case("parse 7607000b06a5d3c562006200726307017701010171ff8f8f8f8f8f8f0f", "d5d6-witness", dict(d=b"")))
         out.append(Case("palloc 7607000b06a5d3c562006200726307017701010171ff8f8f8f8f8f8f0f", "d5d6-witness", dict(d=bytes(31), alloc=True)))
